@@ -70,9 +70,46 @@ def run(tier, seed):
         text = load_text(rng, rng.below(3), kind, rng.below(nforms), nforms, "m")
         src = rng.choice([lisp_string("modm"), "'stdin", lisp_string("default")])
         loads.append(f"(define 'before (get-current-module) \"\") (eval (trap (load-all {lisp_string(text)} {src}) (list 'caught (get-property-safe 'kind *trapped-signal*)))) (list before (get-current-module)) (eval (trap (from-module 'v0m 'modm) 'none))")
-    sets = [ProgramSet("defs", progs), ProgramSet("loads", loads)]
+    # define / undefine in SEVERAL modules: what one module does to a name must not touch the other modules' definitions
+    mm_progs, mm_refs = [], []
+    for i in range(60 if tier == "quick" else 1200):
+        defined = {"default": set(), "modA": set(), "modB": set()}
+        segs = []
+        for _ in range(rng.range(2, 6)):
+            mod = rng.choice(["default", "modA", "modB"])
+            ops = []
+            if mod != "default":
+                defined[mod] = set()          # loading a module again starts it afresh (define_module)
+            for _ in range(rng.range(1, 4)):
+                nm = rng.choice(names)
+                if rng.below(3) < 2:
+                    if not any(nm in v for v in defined.values()):       # (a name visible from another module cannot be defined again)
+                        ops.append(f"(define '{nm} {rng.range(0, 9)} \"\")"); defined[mod].add(nm)
+                else:
+                    ops.append(f"(undefine '{nm})"); defined[mod].discard(nm)
+            if not ops:
+                ops.append("(add 1 2)")
+            segs.append(" ".join(ops) if mod == "default" else f"(load-all {lisp_string(' '.join(ops))} {lisp_string(mod)})")
+        segs.append("(list " + " ".join(f"(whereis '{nm})" for nm in names) + ")")
+        mm_progs.append(" ".join(segs))
+        mm_refs.append([sorted(m for m in defined if nm in defined[m]) for nm in names])
+    sets = [ProgramSet("defs", progs), ProgramSet("loads", loads), ProgramSet("modules", mm_progs)]
     run_sets(rep, sets)
     crashes_and_hangs(rep, sets)
+    for prog, ref, r, ans in zip(mm_progs, mm_refs, sets[2].parsed, sets[2].answers):
+        st, d = last_result(r)
+        if st != "ok":
+            continue
+        try:
+            items = dump.list_items(dump.parse_dump(d))
+            got = [sorted(dump.show(x) for x in (dump.list_items(it) or [])) for it in items]
+        except dump.Truncated:
+            continue
+        if got != ref:
+            rep.violation(f"after define/undefine in several modules whereis answers {got} for {names}, the definitions made are in {ref}: {prog[:200]}",
+                          {"program": prog, "expected": str(ref), "observed": ans[:400]})
+            if len(rep.violations) >= 3:
+                break
     # monitor on the binary, against the property's own reference (a set of defined names; export lists play no role):
     # define on a defined name signals already-defined and changes nothing, on a free name it answers ok; undefine frees the name
     import re as _re
@@ -126,7 +163,7 @@ def run(tier, seed):
     rep.samples = [progs[0], loads[0][:300]]
     rep.coverage.update({"outcomes": outcome_kinds(sets), "fault_kinds": list(FAILS), "exhaustive": False})
     return rep.finish("make -C coq Properties/C15.vo && coqc <pinned statements>", TRUSTED_BASE_COMMON + ["axioms: none"],
-                      "random sequences of define/undefine/lookup/whereis/export over 3 names; loads whose k-th form fails by each of " + ", ".join(FAILS) + " (nested up to 2), into a named module, the default module or no module; non-trivial = distinct sequence")
+                      "random sequences of define/undefine/lookup/whereis/export over 3 names; define/undefine sequences spread over three modules (with reloads) checked against a per-module reference through whereis; loads whose k-th form fails by each of " + ", ".join(FAILS) + " (nested up to 2), into a named module, the default module or no module; non-trivial = distinct sequence")
 
 def replay(path):
     return generic_replay(path)
